@@ -82,6 +82,9 @@ def build_sdmx(s):
         return S.SDMX1Settings(p, s["n1"])
     if k == "G1":
         return S.SDMXG1Settings(p, s["nd"], s["n1"])
+    if k == "Full":
+        # inserted in reverse order: the settings object has to sort by ratio itself
+        return S.SDMXFullSettings({e["ratio10"] / 10.0: (list(e["pows"]), list(e["cnt"])) for e in reversed(list(s["full"]))})
     raise ValueError(k)
 
 
